@@ -63,11 +63,11 @@ Proof.
   apply check_sized_ok; [rewrite L; reflexivity | reflexivity].
 Qed.
 
-Lemma handler_ok_add_appointment l b t x s :
-  length l = 16%nat -> w_handler_check WireSpec.W_EP_add_appointment (w_mk_add_appointment_request l b t (x :: s)) = None.
+Lemma handler_ok_add_appointment l y b t x s :
+  length l = 16%nat -> w_handler_check WireSpec.W_EP_add_appointment (w_mk_add_appointment_request l (y :: b) t (x :: s)) = None.
 Proof.
-  intros L. change (w_handler_check WireSpec.W_EP_add_appointment (w_mk_add_appointment_request l b t (x :: s)))
-    with (w_first_err (w_check_sized (Some (WVBytes l)) Consts.LOCATOR_LEN) None).
+  intros L. change (w_handler_check WireSpec.W_EP_add_appointment (w_mk_add_appointment_request l (y :: b) t (x :: s)))
+    with (w_first_err (w_first_err (w_check_sized (Some (WVBytes l)) Consts.LOCATOR_LEN) None) None).
   rewrite check_sized_ok; [reflexivity | rewrite L; reflexivity | reflexivity].
 Qed.
 
